@@ -200,7 +200,7 @@ func genDataset(r *vk.RNG, format string, n int, t0 int64) *Dataset {
 				m[kv[0]] = kv[1]
 			}
 			addr := vk.Pick(r, ipValues)
-			user := vk.Pick(r, []string{"alice", "bob", "al", "-"})
+			user := vk.Pick(r, []string{"alice", "bob", "al", "-", "" /* an empty field: the capture before the next literal is empty */})
 			method := vk.Pick(r, []string{"GET", "POST", "PUT"})
 			path := vk.Pick(r, genPaths)
 			status := vk.Pick(r, []string{"200", "404", "500"})
